@@ -14,7 +14,7 @@ def run(ck):
                                Operator, PureDephasing)
     rng = ck.rng
     ck.rule = ("random Hermitian Hamiltonians (real and complex, dims 2-3, dyadic entries), generators none / Lindblad form in tensor and "
-               "operator representation / Lindblad + Lorentzian pure dephasing, orders 2,4,6, refinement 1,2,5 (per call and sticky), "
+               "operator representation / Lindblad + Lorentzian / Gaussian pure dephasing (time axes not starting at zero included), orders 2,4,6, refinement 1,2,5 (per call and sticky), "
                "3-7 stored times: every stored state compared with the rational model (1e-9), and checked for trace, Hermiticity, positivity, "
                "distance to the exact exponential of the GKSL generator within the truncation bound; closed systems: norm, purity, energy, "
                "state-vector vs density-matrix propagation, RWA vs laboratory frame; propagators are reused for several calls; "
@@ -23,7 +23,7 @@ def run(ck):
                    "scipy.linalg.expm of the dense GKSL generator is the reference for the 'exact exponential' (oracle only)",
                    "positivity of the exact GKSL semigroup (Lindblad's theorem) is assumed, not proved",
                    "the truncation bound m e^{(m-1)x}(e^x - T_L(x)) is evaluated in floating point with the spectral norm of dt*generator"]
-    ck.prove(PROPS, extra_modules=["QV.Drive.Prop"])
+    ck.prove(PROPS, extra_modules=["QV.Drive.Prop"], also=["QV.Props.C02Energy"])
     lines, impl, tol = [], [], []
     cv = lambda a: SY.cvals(numpy, a)
 
@@ -33,17 +33,20 @@ def run(ck):
     methods = {2: "short-exp-2", 4: "short-exp-4", 6: "short-exp-6"}
     for h in range(ck.n(30, 400)):
         n = rng.choice([2, 3])
-        kind = rng.choice(["H", "H", "H", "lind-tensor", "lind-ops", "lind-deph"])
+        kind = rng.choice(["H", "H", "H", "lind-tensor", "lind-ops", "lind-deph", "lind-gauss"])
         cplx = kind == "H" and rng.random() < 0.5
         H = SY.rand_herm(numpy, rng, n, cplx=cplx)
         L = rng.choice([2, 4, 4, 6])
         nref = rng.choice([1, 1, 2, 5])
         nt = rng.randint(3, 7)
         dt = rng.choice([0.25, 0.5, 1.0])
-        ta = TimeAxis(0.0, nt, dt)
+        tstart = rng.choice([0.0, 0.0, 1.5, -2.0]) if kind == "lind-gauss" else 0.0
+        if kind == "lind-gauss" and nref * (nt - 1) > 12:
+            nt = max(3, 12 // nref + 1)      # the exact model carries Q^s: keep the rationals small
+        ta = TimeAxis(tstart, nt, dt)
         rho0, psi0 = SY.rand_state(numpy, rng, n, pure=(kind == "H" and rng.random() < 0.75))
         ham = Hamiltonian(data=H.copy())
-        inp = {"kind": kind, "n": n, "L": L, "Nref": nref, "nt": nt, "dt": dt, "H": [[str(z) for z in r] for r in H],
+        inp = {"kind": kind, "n": n, "L": L, "Nref": nref, "nt": nt, "dt": dt, "tstart": tstart, "H": [[str(z) for z in r] for r in H],
                "rho0": [[str(z) for z in r] for r in rho0]}
         Ks, rates, E = [], [], None
         try:
@@ -53,7 +56,18 @@ def run(ck):
                 Ks, rates = SY.lindblad_ops(numpy, rng, n)
                 sbi = SystemBathInteraction([Operator(data=K) for K in Ks], rates=tuple(rates))
                 LF = LindbladForm(ham, sbi, as_operators=(kind == "lind-ops"))
-                if kind == "lind-deph":
+                if kind == "lind-gauss":
+                    gam = numpy.zeros((n, n))
+                    for i in range(n):
+                        for j in range(i + 1, n):
+                            gam[i, j] = gam[j, i] = rng.randint(0, 8) / 32.0
+                    pd = PureDephasing(drates=gam, dtype="Gaussian")
+                    prop = ReducedDensityMatrixPropagator(ta, ham, RTensor=LF, PDeph=pd)
+                    dtw_ = dt / nref
+                    # factor after the refined step that starts at tt = tstart + s*dtw: exp(-g dtw^2/2) exp(-g dtw tt) = E0 * Q^s
+                    E = numpy.exp(-gam * dtw_ ** 2 / 2.0) * numpy.exp(-gam * dtw_ * tstart)
+                    Q = numpy.exp(-gam * dtw_ ** 2)
+                elif kind == "lind-deph":
                     gam = numpy.zeros((n, n))
                     for i in range(n):
                         for j in range(i + 1, n):
@@ -72,11 +86,30 @@ def run(ck):
             ck.fail("raises:propagate:%s" % kind, "propagate raised %r" % (e,), inp)
             continue
         data = numpy.array(rhot.data)
+        if nref > 1:
+            # "for every step refinement": refining the step inside propagate() is the same as propagating on the finer axis
+            try:
+                ta2 = TimeAxis(tstart, (nt - 1) * nref + 1, dt / nref)
+                if kind == "H":
+                    prop2 = ReducedDensityMatrixPropagator(ta2, ham)
+                elif kind in ("lind-deph", "lind-gauss"):
+                    prop2 = ReducedDensityMatrixPropagator(ta2, ham, RTensor=LF, PDeph=pd)
+                else:
+                    prop2 = ReducedDensityMatrixPropagator(ta2, ham, RTensor=LF)
+                fine = numpy.array(prop2.propagate(ReducedDensityMatrix(data=rho0.copy()), method=methods[L]).data)[::nref]
+                dev = float(numpy.abs(fine - data).max())
+                ck.resid("refined step vs finer axis", dev)
+                if dev > 1e-11:
+                    ck.fail("refinement:%s" % kind, "propagate(Nref=k) differs from propagating on the k times finer time axis", inp, dev, 1e-11)
+            except Exception as e:
+                ck.fail("raises:refinement:%s" % kind, "propagation on the finer axis raised %r" % (e,), inp)
         head = "%d %d %d %d %s" % (n, L, nref, nt, cfrac(dt))
         if kind == "H":
             emit("proph %s 0 %s %s" % (head, cv(H), cv(rho0)), data)
         elif kind == "lind-tensor":
             emit("propt %s 0 %s %s %s" % (head, cv(H), cv(numpy.array(LF.data)), cv(rho0)), data)
+        elif kind == "lind-gauss":
+            emit("proptg %s 0 %s %s %s %s %s" % (head, cv(H), cv(numpy.array(LF.data)), cv(rho0), cv(E), cv(Q)), data)
         elif kind == "lind-deph":
             emit("proptd %s 0 %s %s %s %s" % (head, cv(H), cv(numpy.array(LF.data)), cv(rho0), cv(E)), data)
         else:
@@ -119,6 +152,15 @@ def run(ck):
                     ck.fail("closed:purity", "purity not conserved within the truncation bound", inp, float(numpy.abs(pur - pur[0]).max()), 4 * bnd)
                 if numpy.abs(ene - ene[0]).max() > 2 * float(numpy.linalg.norm(H)) * bnd + 1e-9:
                     ck.fail("closed:energy", "energy not conserved within the truncation bound", inp, float(numpy.abs(ene - ene[0]).max()))
+                # ... and exactly (theorem rdm_constant_of_motion): tr(F rho) for F = H, H^2 moves by rounding only
+                H2 = H @ H
+                for F_, nm in ((H, "H"), (H2, "H^2")):
+                    com = numpy.array([numpy.trace(F_ @ d) for d in data])
+                    tol_ = 1e-12 * (1.0 + float(numpy.linalg.norm(F_))) * float(numpy.linalg.norm(rho0)) * max(1, (nt - 1) * nref) * (1 + x) ** 2
+                    ck.resid("closed system: |tr(%s rho)(t) - tr(%s rho)(0)|" % (nm, nm), float(numpy.abs(com - com[0]).max()))
+                    if numpy.abs(com - com[0]).max() > tol_:
+                        ck.fail("closed:constant-of-motion:" + nm, "tr(%s rho) is not conserved to rounding by Hamiltonian-only propagation" % nm,
+                                inp, float(numpy.abs(com - com[0]).max()), tol_)
                 if psi0 is not None:
                     try:
                         svp = StateVectorPropagator(ta, Hamiltonian(data=H.copy()))
